@@ -733,7 +733,7 @@ func init() {
 		},
 		// ---- sort
 		"sort.Slice": func(in *Interp, _ *ssa.Function, a []Value, c *frame) Value {
-			in.sortBy(a[0].(iface).v.(sliceV), a[1], c)
+			in.sortByUnstable(a[0].(iface).v.(sliceV), a[1], c)
 			return nil
 		},
 		"sort.SliceStable": func(in *Interp, _ *ssa.Function, a []Value, c *frame) Value {
@@ -1266,6 +1266,32 @@ func (in *Interp) sortBy(sl sliceV, less Value, caller *frame) {
 	in.sortWith(sl, func(i, j int) *Term {
 		return in.callFunc(less, []Value{bv(64, uint64(i)), bv(64, uint64(j))}, caller).(*Term)
 	})
+}
+
+// sortByUnstable models sort.Slice by its contract ("not guaranteed to be
+// stable"): the elements are sorted and every run of equal elements comes out
+// in reverse of its input order - a permutation the real implementation is
+// free to produce. Up to 12 elements the real implementation is an insertion
+// sort; the model follows it there, so that short inputs replay natively.
+func (in *Interp) sortByUnstable(sl sliceV, less Value, caller *frame) {
+	lt := func(i, j int) *Term {
+		return in.callFunc(less, []Value{bv(64, uint64(i)), bv(64, uint64(j))}, caller).(*Term)
+	}
+	in.sortWith(sl, lt)
+	if sl.n <= 12 {
+		return // the real implementation sorts up to 12 elements by insertion (stable in effect)
+	}
+	a := *sl.a
+	for start := 0; start < sl.n; {
+		end := start
+		for end+1 < sl.n && !in.e.branch(lt(end, end+1)) {
+			end++
+		}
+		for i, j := start, end; i < j; i, j = i+1, j-1 {
+			a[sl.off+i], a[sl.off+j] = a[sl.off+j], a[sl.off+i]
+		}
+		start = end + 1
+	}
 }
 
 func (in *Interp) errorsIs(ev, tv Value, caller *frame) Value {
